@@ -763,9 +763,11 @@ func (g *wGen) opWritePrepared(wc *wConn, pm *wPM) {
 	if !compress {
 		key = fmt.Sprintf("%v/%v/%d", wc.srv, false, wc.level)
 	}
-	if _, f := wc.t.faults[wc.t.calls]; compress && !pm.cached[key] && (wc.errSeen || wc.closeOnWire() || f) {
-		// the write will be refused (sticky error, close sent, or the scripted fault hits SetWriteDeadline),
-		// so the image built for this key — an environment answer of compress/flate — would not be observable
+	if _, f := wc.t.faults[wc.t.calls]; compress && !pm.cached[key] && (wc.errSeen || wc.closeOnWire() || f || (wc.cur != nil && !wc.cur.closed)) {
+		// the write may be refused (sticky error, close sent, the scripted fault hits SetWriteDeadline, or the
+		// implicit close of the open writer fails or itself sends a close frame), so the image built for this
+		// key — an environment answer of compress/flate — might not be observable. Once the key is cached the
+		// same situations are generated freely.
 		return
 	}
 	isD := pm.t == 1 || pm.t == 2
@@ -810,8 +812,8 @@ func (g *wGen) opWritePrepared(wc *wConn, pm *wPM) {
 	}
 	// C19: the framing variant matches this connection's role and compression settings at the time of
 	// the call (judged on the bytes handed to the transport by this call)
-	for i := len(evs) - 1; i >= 0; i-- {
-		e := evs[i] // the last transport write of the call is the prepared frame (an implicit close writes before it)
+	for i := len(evs) - 1; i >= 0 && err == nil; i-- {
+		e := evs[i] // the last transport write of a successful call is the prepared frame (an implicit close writes before it)
 		if !strings.HasPrefix(e, "wr:") {
 			continue
 		}
